@@ -122,7 +122,9 @@ int main(int argc, char** argv)
             }
             continue;
         }
+        static int nfile = 0;
         if (mode == "render") ev["rn"] = render_all(bytes);
+        else if (mode == "dumpmv") ev["rd"] = vr::reader_dump(bytes, (nfile++) % 4);      // the reader is handed on after 0..3 blocks
         else ev["rd"] = vr::reader_dump(bytes);
         vh::trace().emit(ev);
     }
